@@ -448,11 +448,16 @@ func mutateHeadersByRules(headers, rules http.Header, repl httpserver.Replacer, 
 		for _, ruleValue := range ruleValues {
 			// Replace variables in replacement string
 			replacement := repl.Replace(ruleValue.to)
-			original := headers.Get(ruleField)
-			if len(replacement) > 0 && len(original) > 0 {
-				// Replace matches in original string with replacement string
-				replaced := ruleValue.regexp.ReplaceAllString(original, replacement)
-				headers.Set(ruleField, replaced)
+			if len(replacement) == 0 {
+				continue
+			}
+			// Replace matches in every occurrence of the field (Set-Cookie
+			// and others come on several lines) with the replacement string
+			values := headers[http.CanonicalHeaderKey(ruleField)]
+			for i, original := range values {
+				if len(original) > 0 {
+					values[i] = ruleValue.regexp.ReplaceAllString(original, replacement)
+				}
 			}
 		}
 	}
